@@ -604,6 +604,12 @@ def run(ctx):
     r6_bscale(ctx, prog, rule="C15-R7")
     from .c20 import r7_fresh
     r7_fresh(ctx, prog, rule="C15-R8")
+    # a compressed bkg / rms file is accepted wherever an uncompressed one
+    # is: the header load_image_band returns for a compressed input is the
+    # expanded header with the band's two changes (shared with C20-R9)
+    from .c20 import r9_header_model
+    r9_header_model(ctx, _raw, _raw.func("fits_tools.load_image_band"),
+                    rule="C15-R11")
 
 
 def r9_arithmetic(ctx, prog, comp, exp):
